@@ -63,3 +63,46 @@ pub fn c06_mutations(_req: &J) -> J {
         Err(_) => json!({"panicked": true, "msg": crate::last_panic()}),
     }
 }
+
+/// C08: stop after a block (with / without proposer action, with / without pending tips), rebuild from the block,
+/// then apply the same next block to both and compare headers.
+pub fn c08(req: &J) -> J {
+    let r = catch_unwind(AssertUnwindSafe(|| {
+        let db = Database::new(InMemoryCas::default());
+        let st: UnsealedState<InMemoryCas> = genesis(NetID::Custom02, 1000, 5_000_000).realize(&db);
+        let parent = st.seal(None);
+        let mut next = parent.next_unsealed();
+        let tip = if req["tips_nonzero"].as_bool().unwrap_or(false) { 777u128 } else { 0 };
+        // fee = minimum + tip  (minimum computed by the real code)
+        let mk = |fee: u128| Transaction {
+            kind: TxKind::Normal,
+            inputs: vec![CoinID::zero_zero()],
+            outputs: vec![CoinData { covhash: always_true_covhash(), value: CoinValue((1 << 64) - fee), denom: Denom::Mel, additional_data: Default::default() }],
+            fee: CoinValue(fee),
+            covenants: vec![melvm::Covenant::always_true().to_bytes()],
+            data: Default::default(),
+            sigs: vec![],
+        };
+        let min = mk(0).base_fee(1000, 0, |c| melvm::covenant_weight_from_bytes(c)).0;
+        let min = mk(min + tip).base_fee(1000, 0, |c| melvm::covenant_weight_from_bytes(c)).0;
+        next.apply_tx(&mk(min + tip)).expect("tx");
+        let action = if req["with_action"].as_bool().unwrap_or(false) {
+            Some(ProposerAction { fee_multiplier_delta: 5, reward_dest: Address(HashVal([9u8; 32])) })
+        } else {
+            None
+        };
+        let a = next.seal(action);
+        let b = melstf::SealedState::from_block(&a.to_block(), &a.raw_stakes(), &db);
+        let same_header = a.header() == b.header();
+        let follow = Some(ProposerAction { fee_multiplier_delta: -3, reward_dest: Address(HashVal([4u8; 32])) });
+        let na = a.next_unsealed().seal(follow);
+        let nb = b.next_unsealed().seal(follow);
+        let reward_a = na.coin(CoinID::proposer_reward(na.header().height)).map(|c| c.coin_data.value.0.to_string());
+        let reward_b = nb.coin(CoinID::proposer_reward(nb.header().height)).map(|c| c.coin_data.value.0.to_string());
+        (same_header, na.header() == nb.header(), reward_a, reward_b)
+    }));
+    match r {
+        Ok((h, n, ra, rb)) => json!({"panicked": false, "same_header": h, "same_next_header": n, "next_reward_original": ra, "next_reward_rebuilt": rb}),
+        Err(_) => json!({"panicked": true, "msg": crate::last_panic()}),
+    }
+}
